@@ -15,7 +15,11 @@ use proptest::test_runner::{Config, RngAlgorithm, TestCaseError, TestError, Test
 use serde::Serialize;
 use serde_json::{json, Map, Value};
 
-pub const VERIF_DIR: &str = "/verif";
+/// base directory for evidence/, out/, corpus/ and KNOWN_FINDINGS.txt; the registered checks use /verif,
+/// background soak runs point VERIF_DIR at their snapshot so that they do not touch the committed evidence
+pub fn verif_dir() -> String {
+    std::env::var("VERIF_DIR").ok().filter(|s| !s.is_empty()).unwrap_or_else(|| "/verif".to_string())
+}
 
 #[derive(Clone, Copy, PartialEq, Eq, Debug)]
 pub enum Tier {
@@ -337,7 +341,7 @@ impl Ctx {
             "wall_s": (wall * 1000.0).round() / 1000.0,
             "violations": failures.len(),
         });
-        let evdir = Path::new(VERIF_DIR).join("evidence");
+        let evdir = Path::new(&verif_dir()).join("evidence");
         let _ = std::fs::create_dir_all(&evdir);
         let evpath = evdir.join(format!("{}.json", self.id));
         if let Err(e) = std::fs::write(&evpath, serde_json::to_string_pretty(&ev).unwrap() + "\n") {
@@ -386,7 +390,7 @@ impl Ctx {
 }
 
 pub fn write_replay(id: &str, f: &Failure) -> PathBuf {
-    let dir = Path::new(VERIF_DIR).join("out").join("replays");
+    let dir = Path::new(&verif_dir()).join("out").join("replays");
     let _ = std::fs::create_dir_all(&dir);
     let body = json!({"property": id, "part": f.part, "case": f.case, "message": f.message});
     let text = serde_json::to_string_pretty(&body).unwrap() + "\n";
@@ -397,7 +401,7 @@ pub fn write_replay(id: &str, f: &Failure) -> PathBuf {
 }
 
 fn load_known(id: &str) -> Vec<Known> {
-    let path = Path::new(VERIF_DIR).join("KNOWN_FINDINGS.txt");
+    let path = Path::new(&verif_dir()).join("KNOWN_FINDINGS.txt");
     let text = std::fs::read_to_string(path).unwrap_or_default();
     let mut out = vec![];
     for line in text.lines() {
